@@ -437,11 +437,14 @@ PROBE_DOCS = [
     "- item\n\n  ```python\n  x = \"q\"  # don't...\n\n  y = 1\n  ```\n\n- next\n\n<div>\nraw html\n</div>\n\n    indented code\n",
     # long multi-sentence paragraph (semantic breaks, min line length rule)
     "Yes. Short start then a considerably longer sentence that will need to be wrapped at most of the widths in use here. No. Another sentence, e.g. with an abbreviation, follows it. OK.\n",
+    # one paragraph dense with atomic constructs (links, code spans, tags, comments): exercises
+    # per-paragraph tables/maps far beyond the usual one or two entries
+    "Dense: [l0](https://e.x/0), `c1`, [l2](https://e.x/2), {% t3 %}, <!-- c4 -->, [l5](https://e.x/5), `c6 c6`, [l7](https://e.x/7 \"t7\"), {{ v8 }}, [l9](https://e.x/9), `c10`, [l11](https://e.x/11), {# c12 #}, [l13](https://e.x/13) and <b>b14</b> end.\n",
 ]
 
 
 # every feature in one document: the very first call after a victim sees all of them
-PROBE_ALL = "\n".join(PROBE_DOCS[i] for i in (1, 0, 3, 5, 4, 2, 6, 7, 8))
+PROBE_ALL = "\n".join(PROBE_DOCS[i] for i in (1, 0, 3, 5, 4, 2, 6, 7, 8, 9))
 
 
 # a second all-features document with the same constructs but different particulars (fence
@@ -507,6 +510,8 @@ echo "hi"   # it's...
 </details>
 
 No. Yes. A long sentence comes second here and it must be wrapped at most of the widths that are in use. Fine.
+
+Packed: `k0` then [m1](https://o.y/1) then `k2 k2` then [m3](https://o.y/3) then {% u4 %} then [m5](https://o.y/5) then `k6` then <!-- d7 --> then [m8](https://o.y/8) then `k9` then [m10](https://o.y/10 'q') then {{ w11 }} stop.
 """
 
 
@@ -561,3 +566,17 @@ def gen_sentence_mix(rng: random.Random) -> str:
     if rng.random() < 0.3:
         paras = ["- " + p for p in paras]
     return "\n\n".join(paras) + "\n"
+
+
+def gen_big_doc(rng: random.Random, kb: int = 100) -> str:
+    """A large document that is cheap to format: a long fenced code block between prose (exceeds
+    pipe / buffer / chunk sizes of 64 KiB and more)."""
+    lines = []
+    size = 0
+    i = 0
+    while size < kb * 1024:
+        ln = f"line {i} " + _word(rng) + " " + _word(rng) + ("  # caf\u00e9 \u65e5\u672c" if i % 97 == 0 else "")
+        lines.append(ln)
+        size += len(ln) + 1
+        i += 1
+    return "# Big " + _word(rng) + "\n\n" + paragraph(rng, 2, 3) + "\n\n```text\n" + "\n".join(lines) + "\n```\n\n" + paragraph(rng, 1, 2) + "\n"
